@@ -3,7 +3,8 @@
    terminator or sit next to it, inputs of a few short lines, context / inversion options.   *)
 EXTENDS GrepModelML, SequencesExt
 
-CONSTANTS MaxLen, CtxMax, WithPlans
+CONSTANTS MaxLen, CtxMax, WithPlans,
+          WithCrlf    \* TRUE: also --crlf scenarios (CRLF-aware anchors and dot) on inputs holding CR LF and bare CR
 
 VARIABLES scn, pc
 vars == <<scn, pc>>
@@ -38,15 +39,27 @@ Pats == { UCat(ULit(SA), UCat(LF1, ULit(SB))),                    \* a\nb
 Opt(ci, word, line, crlf) == [ci |-> ci, smart |-> FALSE, word |-> word, line |-> line, crlf |-> crlf, nul |-> FALSE, inv |-> FALSE, dotall |-> FALSE]
 Opts == {Opt(FALSE, FALSE, FALSE, FALSE), [Opt(FALSE, FALSE, FALSE, FALSE) EXCEPT !.dotall = TRUE],
          Opt(FALSE, TRUE, FALSE, FALSE), Opt(FALSE, FALSE, TRUE, FALSE)}
+        \cup (IF WithCrlf THEN {Opt(FALSE, FALSE, FALSE, TRUE), Opt(FALSE, FALSE, TRUE, TRUE)} ELSE {})
+\* inputs of the --crlf scenarios: up to three tokens out of a, b, CR LF, a bare LF, a bare CR
+RECURSIVE Flat(_)
+Flat(t) == IF t = <<>> THEN <<>> ELSE Head(t) \o Flat(Tail(t))
+InputsCR == {Flat(t) : t \in SeqsUpTo({<<SA>>, <<SB>>, <<SCR, SLF>>, <<SLF>>, <<SCR>>}, 3)}
+            \cup {<<SA, SCR, SLF, SB, SCR, SLF>>, <<SA, SCR, SLF, SA, SCR, SLF, SB>>, <<SB, SCR, SLF, SCR, SLF, SA, SCR, SLF>>}
 Cfgs == {[A |-> a, B |-> b, inv |-> i, pass |-> p, lnum |-> TRUE, stopnm |-> FALSE] :
             a \in 0..CtxMax, b \in 0..CtxMax, i \in BOOLEAN, p \in BOOLEAN}
 
+\* Under --crlf an EMPTY match lying between the CR and the LF of a terminator is left open: a pattern that cannot match
+\* LF is searched line by line on the content without its terminator (no such position), one that can is searched over
+\* the whole input (the position exists and overlaps the line).  The patterns with \B - the ones with such matches -
+\* are therefore not combined with --crlf.
+NwbPats == {u \in Pats : u = ULook("nwb") \/ (u.k = "alt" /\ (u.a = ULook("nwb") \/ u.b = ULook("nwb")))}
 Init == /\ pc = "pick"
-        /\ scn \in {[u |-> u, o |-> o, cfg |-> c, inp |-> <<>>, stopAt |-> 0, errAt |-> 0] : u \in Pats, o \in Opts,
-                      c \in {c \in Cfgs : c.pass => (c.A = 0 /\ c.B = 0)}}
+        /\ scn \in {s \in {[u |-> u, o |-> o, cfg |-> c, inp |-> <<>>, stopAt |-> 0, errAt |-> 0] : u \in Pats, o \in Opts,
+                                 c \in {c \in Cfgs : c.pass => (c.A = 0 /\ c.B = 0)}}
+                        : ~(s.o.crlf /\ s.u \in NwbPats)}
 Exp(sc) == ExpectedML(sc.inp, sc.u, sc.o, sc.cfg)
 Pick == /\ pc = "pick"
-        /\ \E i \in Inputs :
+        /\ \E i \in (IF scn.o.crlf THEN InputsCR ELSE Inputs) :
              LET base == [scn EXCEPT !.inp = i]
                  n == Len(ExpectedML(i, scn.u, scn.o, scn.cfg))
              IN \E pl \in ({<<0, 0>>} \cup (IF WithPlans THEN {<<k, 0>> : k \in 1..(n - 1)} \cup {<<0, k>> : k \in 1..(n - 1)} ELSE {})) :
